@@ -115,11 +115,25 @@ pub fn dump_segment(sr: &SegmentReader, hs: &HSchema) -> Result<SegDump, (String
             let mut p = inv
                 .read_postings_from_terminfo(&ti, IndexRecordOption::WithFreqsAndPositions)
                 .map_err(|x| e("read-postings", x.to_string()))?;
+            // typed (non-string) terms of a JSON field carry no positions, and asking for them
+            // is not allowed: key layout is `path \0 type-code value`
+            let is_json = matches!(entry.field_type(), tantivy::schema::FieldType::JsonObject(_));
+            let has_positions = !is_json
+                || key
+                    .iter()
+                    .position(|b| *b == 0)
+                    .and_then(|i| key.get(i + 1))
+                    .map(|t| *t == b's')
+                    .unwrap_or(true);
             let mut doc = p.doc();
             let mut positions = vec![];
             while doc != TERMINATED {
                 if let Some(Some(id)) = doc_to_id.get(doc as usize) {
-                    p.positions(&mut positions);
+                    if has_positions {
+                        p.positions(&mut positions);
+                    } else {
+                        positions.clear();
+                    }
                     out.docs.get_mut(id).unwrap().terms.insert(
                         (entry.name().to_string(), key.clone()),
                         (p.term_freq(), positions.clone()),
